@@ -168,6 +168,44 @@ theorem c10_load_then_find (off : Nat) (text : List Char) (a : Nat)
   obtain ⟨r, hr, _, _⟩ := (c10_find_correct _ a hwf).1 ⟨s, hs', hc⟩ hne
   exact ⟨r, hr, c10_find_unique_range _ a hwf s r hs' hc hr⟩
 
+/-- Round trip: a table that `save_module_symbol_file` can express (address-sorted, every
+    size non-zero and below 0xa0000000, an allowed type, a name without TAB/newline that is
+    not a `__sym_end` marker, no two consecutive entries with the same (addr, type)) is read
+    back by `load_module_symbol_file` exactly as it was — for every load offset, path and
+    build-id. -/
+theorem c10_load_save (off : Nat) (path bid : List Char) (t : List Sym)
+    (hp : '\n' ∉ path) (hb : '\n' ∉ bid) (hok : ∀ s ∈ t, SaveOk s)
+    (hsorted : AddrSorted t) (hnd : NoAdjDup t) :
+    load off (save off path bid t) = t := by
+  cases t with
+  | nil => simp [save, load, rawLoad, splitLines, splitLinesAux, sortByAddr]
+  | cons s r =>
+    have hs := hok s (by simp)
+    have hchain : Chain off ({} : LdSt).prevAddr ({} : LdSt).prevType (s :: r) :=
+      ⟨fun e => (allowed_ne_nl _ hs.type).2 e.2,
+       chain_of_noAdjDup off s r hs.addr (fun x hx => (hok x (by simp [hx])).addr) hnd⟩
+    unfold load rawLoad
+    rw [splitLines_save off path bid (s :: r) hp hb
+      (fun x hx => saveLine_no_nl off x (hok x hx)) (by simp)]
+    rw [List.foldl_append, foldl_hash off _ _ (hdrLines_hash _ _ _)]
+    rw [foldl_saved off (s :: r) {} hok hchain (by intro x r' h; simp at h)]
+    simp only [List.append_nil, List.reverse_reverse]
+    exact sortByAddr_of_sorted _ hsorted
+
+example : ∃ t : List Sym, t ≠ [] ∧ (∀ s ∈ t, SaveOk s) ∧ AddrSorted t ∧ NoAdjDup t :=
+  ⟨[⟨0x1000, 0x10, 'T', ['m','a','i','n']⟩, ⟨0x1010, 0x20, 't', ['o','p',' ','n','e','w']⟩],
+   by simp, by
+     intro s hs
+     simp only [List.mem_cons, List.not_mem_nil, or_false] at hs
+     rcases hs with e | e <;> subst e <;> constructor <;> decide,
+   by decide, by simp [NoAdjDup]⟩
+
+/-- Why the size bound is needed: `%08x` of a size whose first hex digit is a letter is
+    read back as a type character, and the line is dropped. -/
+theorem c10_load_save_big_size_witness :
+    load 0 (save 0 ['p'] [] [⟨0x1000, 0xa0000000, 'T', ['h','u','g','e']⟩]) = [] := by
+  decide
+
 /-! ## session in force at a timestamp -/
 
 /-- References added in time order: the session used for time `t` is the one of the
@@ -201,6 +239,51 @@ theorem c10_session_by_time (tasks : List Task) (task : Task) (adds : Adds) (t f
 example : ∃ adds : Adds, adds.Pairwise (fun x y => x.2 ≤ y.2) ∧
     (adds.filter (fun x => decide (x.2 ≤ 150))).getLast? = some (7, 100) :=
   ⟨[(7, 100), (8, 200)], by decide⟩
+
+/-- `create_session` keeps the session tree ordered by (pid, start time). -/
+theorem c10_sessions_sorted (xs : List Sess) :
+    SessSorted (xs.foldl createSession {}).sessions := by
+  suffices h : ∀ (lk : Link), SessSorted lk.sessions → SessSorted (xs.foldl createSession lk).sessions from
+    h {} List.Pairwise.nil
+  induction xs with
+  | nil => intro lk h; exact h
+  | cons x r ih => intro lk h; exact ih _ (insertSess_sorted x lk.sessions h)
+
+/-- `find_session(pid, t)` (used when a task is created, forks or execs): the session it
+    returns belongs to that pid, had started by `t`, and no session of the pid that had
+    started by `t` started later; it returns nothing only if there is no such session. -/
+theorem c10_session_lookup_latest (ss : List Sess) (hs : SessSorted ss) (pid ts : Nat) :
+    (∀ s, findSession ss pid ts = some s →
+        s ∈ ss ∧ s.pid = pid ∧ s.start ≤ ts ∧
+        ∀ s' ∈ ss, s'.pid = pid → s'.start ≤ ts → s'.start ≤ s.start) ∧
+    (findSession ss pid ts = none → ∀ s' ∈ ss, ¬ (s'.pid = pid ∧ s'.start ≤ ts)) := by
+  constructor
+  · intro s hf
+    unfold findSession at hf
+    obtain ⟨ys, hys⟩ := List.getLast?_eq_some_iff.mp hf
+    have hmem : s ∈ ss.filter (fun s => s.pid == pid && decide (s.start ≤ ts)) := by rw [hys]; simp
+    have hprop := List.mem_filter.mp hmem
+    simp only [Bool.and_eq_true, beq_iff_eq, decide_eq_true_eq] at hprop
+    refine ⟨hprop.1, hprop.2.1, hprop.2.2, ?_⟩
+    intro s' hs' hp ht
+    have hm' : s' ∈ ss.filter (fun s => s.pid == pid && decide (s.start ≤ ts)) :=
+      List.mem_filter.mpr ⟨hs', by simp [hp, ht]⟩
+    have hsorted : (ys ++ [s]).Pairwise (fun a b => a.pid < b.pid ∨ (a.pid = b.pid ∧ a.start ≤ b.start)) := by
+      rw [← hys]; exact List.Pairwise.sublist List.filter_sublist hs
+    rw [hys] at hm'
+    rcases List.mem_append.mp hm' with e | e
+    · have := (List.pairwise_append.mp hsorted).2.2 s' e s (by simp)
+      have := hprop.2.1
+      omega
+    · simp only [List.mem_singleton] at e
+      subst e; exact Nat.le_refl _
+  · intro hf s' hs' ⟨hp, ht⟩
+    unfold findSession at hf
+    have hnil := List.getLast?_eq_none_iff.mp hf
+    have hm' : s' ∈ ss.filter (fun s => s.pid == pid && decide (s.start ≤ ts)) :=
+      List.mem_filter.mpr ⟨hs', by simp [hp, ht]⟩
+    rw [hnil] at hm'
+    simp at hm'
 
 /-- The reference intervals of one task never overlap, so "the" reference with
     `start ≤ t < end` is unique. -/
